@@ -118,8 +118,8 @@ def signal_histories(draw):
             d["force_real"] = draw(st.booleans())
         elif op == "buffers":
             # units of dt/2; "given but not larger than the current buffer" (0) must be common
-            d["lead"] = draw(st.one_of(st.none(), st.just(0), st.integers(0, 40), st.integers(0, 40)))
-            d["trail"] = draw(st.one_of(st.none(), st.just(0), st.integers(0, 40), st.integers(0, 40)))
+            d["lead"] = draw(st.one_of(st.none(), st.just("same"), st.integers(0, 40), st.integers(0, 40)))
+            d["trail"] = draw(st.one_of(st.none(), st.just("same"), st.integers(0, 40), st.integers(0, 40)))
             d["force"] = draw(st.booleans())
         elif op == "resample":
             d["factor"] = draw(st.sampled_from([0.5, 2.0, 1.0]))
@@ -136,6 +136,10 @@ def signal_histories(draw):
         elif op == "times_iadd":
             d["k"] = draw(st.integers(-8, 8))
         ops.append(d)
+        # reads right after a mutation (and therefore right before the next one) are what
+        # exposes a cache that was not invalidated
+        if op not in ("read", "mul", "copy", "add", "with_times") and draw(st.booleans()):
+            ops.append(dict(op="read", i=d["i"]))
     return dict(m=m, dt=dt, t0=t0, base=base, ops=ops)
 
 
@@ -272,8 +276,17 @@ def _run_signal_history(case, upto, reads, rec=None):
                 for c in model.comps:
                     c["filters"].append((op["resp"], op["force_real"]))
         elif name == "buffers":
-            lead = None if op["lead"] is None else op["lead"] * dt / 2
-            trail = None if op["trail"] is None else op["trail"] * dt / 2
+            def _buf(v, k):
+                if v is None:
+                    return None
+                if v == "same":
+                    # given, but leaving the (last component's) buffer as it is
+                    if op["force"] and model is not None:
+                        return model.comps[-1][k]
+                    return 0.0
+                return v * dt / 2
+            lead = _buf(op["lead"], "lead")
+            trail = _buf(op["trail"], "trail")
             sig.set_buffers(leading=lead, trailing=trail, force=op["force"])
             classes.add("buffers")
             if model is not None:
